@@ -24,13 +24,21 @@ def run(repo_root, grp, tier='quick', seed=0):
         open(os.path.join(scratch, 'Cargo.toml'), 'w').write('[workspace]\nresolver = "2"\nmembers = ["gneiss-mqtt", "gneiss-mqtt-aws"]\n')
         shutil.copy(os.path.join(repo_root, 'Cargo.lock'), os.path.join(scratch, 'Cargo.lock'))
         cdir = os.path.join(scratch, ek.CRATES[grp['crate']]['dir'])
-        shutil.copytree(os.path.join(VERIF, 'bounded', grp['module_dir']), os.path.join(cdir, 'src', 'verif_bounded'))
+        shutil.copytree(os.path.join(VERIF, 'bounded', grp['module_dir']), os.path.join(cdir, 'src', 'verif_bounded'),
+                        ignore=shutil.ignore_patterns('_append_*'))
+        # read-only accessors appended to the scratch copy (never to /repo): bounded/<dir>/_append_<file>.rs.txt -> src/<file>.rs
+        for fn in sorted(os.listdir(os.path.join(VERIF, 'bounded', grp['module_dir']))):
+            if fn.startswith('_append_') and fn.endswith('.rs.txt'):
+                target = os.path.join(cdir, 'src', fn[len('_append_'):-len('.txt')].replace('__', '/'))
+                with open(target, 'a') as f:
+                    f.write(open(os.path.join(VERIF, 'bounded', grp['module_dir'], fn)).read())
         with open(os.path.join(cdir, 'src', 'lib.rs'), 'a') as f:
             f.write('\n#[cfg(test)]\nmod verif_bounded;\n')
         cmd = ['cargo', 'test', '--offline', '--lib', '--release'] if grp.get('release') else ['cargo', 'test', '--offline', '--lib']
         for ft in grp.get('features', []):
             cmd += ['--features', ft]
-        cmd += ['verif_bounded::', '--', '--test-threads', '8', '--nocapture']
+        cmd += ['verif_bounded::%s' % t for t in grp.get('filters', [])] or ['verif_bounded::']
+        cmd += ['--', '--test-threads', '8', '--nocapture']
         out['cmd'] = 'cd <scratch copy of /repo>/%s && VERIF_TIER=%s %s' % (ek.CRATES[grp['crate']]['dir'], tier, ' '.join(cmd))
         env = dict(os.environ)
         env['CARGO_NET_OFFLINE'] = 'true'
@@ -44,6 +52,8 @@ def run(repo_root, grp, tier='quick', seed=0):
             out['tool_error'] = 'cargo test timeout'
             return out
         text = p.stdout + '\n' + p.stderr
+        out['finding_lines'] = re.findall(r'^(FINDING-(?:PRESENT|ABSENT) \S+.*)$', text, flags=re.M)
+        out['info_lines'] = re.findall(r'^(F-[A-Z0-9-]+ .*)$', text, flags=re.M)
         if 'error: could not compile' in text or re.search(r'^error(\[E\d+\])?:', p.stderr, flags=re.M) and 'test result' not in text:
             out['status'] = 'tool-error'
             out['tool_error'] = 'build failed: ' + text[-2500:]
